@@ -9,7 +9,7 @@ BUDGET = {"quick": 2000, "thorough": 200000}
 MIN_EVALS = {"quick": 3000, "thorough": 80000}
 RULE = (
     "seeded random cases: grid dataset of 1-2 axes (a quarter of them two faces joined by same-axis or axis-swapping links, the input there a scalar or a vector component {axis: component} with its partner) with dimension coordinates on all, none or a random subset of the dimensions (with attributes), 0-5 random "
-    "non-dimension coordinates (0-D/1-D/N-D on any mix of positions and an extra dim, with attributes), an input at a "
+    "non-dimension coordinates (0-D/1-D/N-D on any mix of positions and an extra dim, with attributes), in 30% of the cases metrics registered from data variables (constructor or set_metrics), an input at a "
     "random position carrying the dataset's coordinates or none, one of diff/interp/min/max/cumsum over one or two axes "
     "with any of the 8 shifts (padded and unpadded paths), keep_coords true/false/default. Verdicts: coordinate set of "
     "the result == {dataset coordinates fitting the result dims} (keep_coords) / {dimension coordinates} (otherwise); "
@@ -81,6 +81,9 @@ def gen_case(rng, i, tier):
         # the input may be called like a coordinate of the grid dataset (an interpolated longitude is still "lon") or like a dimension
         "name": rng.choice(["nm", "temperature", None] + ([rng.choice(aux)["name"]] * 2 if aux else []) + [rng.choice(alld)]), "boundary": rng.choice(["fill", "extend", "periodic"]),
         "dseed": rng.getrandbits(31), "fc": fc,
+        # the grid may carry metrics registered from *data variables* of the dataset: they are not coordinates of the
+        # dataset and never become labels of a result
+        "metrics": rng.random() < 0.3,
     }
 
 
@@ -109,7 +112,21 @@ def build(desc):
     if fc:
         kw["face_connections"] = {"face": {int(f): {a: tuple(None if l is None else (l[0], l[1], bool(l[2])) for l in lr) for a, lr in d.items()}
                                            for f, d in fc.items()}}
+    if desc.get("metrics"):
+        cm = gen.layout_coords(desc["layout"])
+        mets = {}
+        for a, ps in cm.items():
+            names = []
+            for p_, d in ps.items():
+                ds["metric_" + d] = ((d,), np.arange(ds.sizes[d], dtype=float) + 1.0)
+                names.append("metric_" + d)
+            mets[(a,)] = names
+        kw["metrics"] = mets
     g = Grid(ds, coords=gen.layout_coords(desc["layout"]), periodic=False, autoparse_metadata=False, **kw)
+    if desc.get("metrics") and desc["dseed"] % 2:
+        # ... or registered after construction
+        a0 = sorted(mets)[0]
+        g.set_metrics(a0, mets[a0], overwrite=True)
     return ds, g
 
 
@@ -143,7 +160,7 @@ def run_case(ctx, desc):
             return getattr(g, op)(x, axarg, **kw)
     rdims = [{cm[a][desc["pos"][a]]: cm[a][to[a]] for a in opax}.get(d, d) for d in dims]
     expc = {c for c, v in ds.coords.items() if set(v.dims) <= set(rdims) and (kc or c in rdims)}
-    ckey = (op, ("faces-vector" if desc.get("vector") else "faces") if desc.get("fc") else "simple", [(desc["pos"][a], to[a]) for a in opax], desc["keep_coords"], desc["carry"], desc["withdim"] if isinstance(desc["withdim"], bool) else "mixed",
+    ckey = (op, (("faces-vector" if desc.get("vector") else "faces") if desc.get("fc") else "simple") + ("+metrics" if desc.get("metrics") else ""), [(desc["pos"][a], to[a]) for a in opax], desc["keep_coords"], desc["carry"], desc["withdim"] if isinstance(desc["withdim"], bool) else "mixed",
             min(3, len(expc)))
     ctx.judged(ckey, len(expc) > 0)
     try:
